@@ -304,7 +304,11 @@ def m_tuple(interp, args, kwargs):
             c.immutable = True
             return c
         return seqs.frozen(src)
-    return tuple(interp.iterate(src))
+    v = m_list(interp, [src], {})          # (generator expressions / iterators over symbolic sequences)
+    if isinstance(v, SList):
+        from . import seqs
+        return seqs.frozen(v)
+    return tuple(v)
 
 
 @model(builtins.dict)
